@@ -14,6 +14,7 @@ import WrglModel.Model.Sync
 import WrglModel.Lemmas.C09
 import WrglModel.Lemmas.C09E2E
 import WrglModel.Lemmas.C09Tables
+import WrglModel.Lemmas.C09Cut
 import WrglModel.Gen.Facts
 namespace Wrgl
 
@@ -93,6 +94,37 @@ theorem C09_transfer_closed_multi (s : SrcRepo) (d : DstRepo) (hwf : s.commits.w
       (∀ w ∈ ws, w ∉ pending → ∀ a, Reach s.commits a w → (d'.commits.get? a).isSome = true) ∧
       (∀ k, d.has k = true → d'.has k = true) :=
   fetch_end_to_end_multi s d hwf hac tts depth fuel ws hws f f' pending hf0 hheld hcom hblk _ henq st objs hi ho
+
+/-- Interrupted transfers (a stream reset, a short body, a killed process): the receiver took the
+    objects before a cut at ANY object boundary of the sender's stream - whatever the packfile sizes,
+    however many wants the stream serves - and nothing after it. Every commit it holds now and did not
+    hold before has its table (when that table is selected and the source has it), given that it
+    holds the tables the sender counts as present from the start. This is what makes the retry sound:
+    a new session asks only for advertised commits that are not stored yet, so a commit stored by the
+    interrupted attempt is never asked for again, and neither is its table. -/
+theorem C09_interrupted_commit_has_table (s : SrcRepo) (d : DstRepo) (tts : List Nat) (st : SenderSt) (cs : List Nat)
+    (objs : List ObjKey) (ho : senderObjs s tts st cs = .ok objs)
+    (hct : ∀ t ∈ st.commonTables, d.has (.tbl t) = true)
+    (a b : List ObjKey) (hs : objs = a ++ b) (d' : DstRepo) (hrecv : receiveAll s d a = .ok d')
+    (c : Nat) (hnew : d'.has (.com c) = true) (hold : d.has (.com c) = false)
+    (cm : Commit) (hcm : s.commits.get? c = some cm) (htts : tts.contains cm.table = true)
+    (hsrc : (s.table? cm.table).isSome = true) :
+    d'.has (.tbl cm.table) = true :=
+  interrupted_commit_has_table s d tts st cs objs ho hct a b hs d' hrecv c hnew hold cm hcm htts hsrc
+
+/-- ... and it rests on the receiver storing each table when it is read: a receiver that sets the
+    tables of a packfile aside until the packfile's end (`deferredPrefix`) is left, by a cut after
+    the first of two independent tips, with that tip's commit and without its table. -/
+theorem C09_deferred_tables_unsafe :
+    ∃ (s : SrcRepo) (objs a b : List ObjKey) (d' : DstRepo),
+      senderObjs s [10, 20] { commonTables := [], commonBlocks := [] } [1, 2] = .ok objs ∧ objs = a ++ b ∧
+      receiveAll s { blocks := [], tables := [], commits := [] } (deferredPrefix a) = .ok d' ∧
+      d'.has (.com 1) = true ∧ d'.has (.tbl 10) = false :=
+  ⟨{ commits := [{ id := 1, time := 1, parents := [], table := 10 }, { id := 2, time := 1, parents := [], table := 20 }],
+     tables := [{ id := 10, blocks := [100] }, { id := 20, blocks := [200] }] },
+   [.blk 100, .tbl 10, .com 1, .blk 200, .tbl 20, .com 2], [.blk 100, .tbl 10, .com 1, .blk 200], [.tbl 20, .com 2],
+   { blocks := [200, 100], tables := [], commits := [{ id := 1, time := 1, parents := [], table := 10 }] },
+   by decide, by decide, rfl, by decide, by decide⟩
 
 /-- … and this is independent of how the object stream is cut into packfiles: for every size
     limit the concatenation of the packfiles is the stream. -/
